@@ -26,9 +26,7 @@ Plain(fam, d, what, sql, pre, probe, fresh) == Case(fam, d, what, sql, <<>>, pre
 
 (* expressions: framed so that every operator result is observable           *)
 Frame(e) == "SELECT " \o e \o " AS r FROM t ORDER BY id"
-IsRep(c) == \A i \in 1..Len(c.ops) : \E o \in (Rep \cup Prefix \cup Postfix \cup {<<"BETWEEN">>, <<"NOT", "BETWEEN">>, <<"IN">>, <<"NOT", "IN">>,
-                                                                                 <<"LIKE">>, <<"NOT", "LIKE">>, <<"IS">>, <<"<">>}) : Join(o) = c.ops[i]
-EBounded == IF EBound = "full" THEN ECases ELSE {c \in ECases : IsRep(c)}
+EBounded == IF EBound = "full" THEN ECases ELSE ESmall
 EWhat(c) == {c.form} \cup {ToString(i) \o ":" \o c.cls[i] : i \in 1..Len(c.cls)}
 ExprCases == {Case("expr", "sqlite", EWhat(c), Frame(Join(c.toks)), <<>>, <<>>, <<>>, FALSE, c.toks, "", "", "", FALSE) : c \in EBounded}
 
